@@ -54,7 +54,24 @@ pub fn strategy(max_horizon_s: u16) -> impl Strategy<Value = Case> {
     prop_oneof![
         5 => strategy_h(max_horizon_s, false),
         1 => strategy_h(max_horizon_s.max(170), true),
+        1 => flapping(max_horizon_s.max(170)),
     ]
+}
+
+/// A link that flaps: dark periods of 12..20 s separated by gaps just long enough for one re-registration,
+/// so that a fault often begins right after a REG3.
+fn flapping(horizon_s: u16) -> impl Strategy<Value = Case> {
+    (strategy_h(horizon_s, true), 20u16..80, vec((120u16..200, 50u16..66), 2..5), prop_oneof![Just(0u8), Just(2u8)], 1u8..=3).prop_map(|(mut c, start, flaps, kind, tsel)| {
+        c.faults.clear();
+        c.forgets.clear();
+        c.timeout = tsel; // 1000 / 1001 / 2500 ms: detection is quick, the run stays short
+        let mut t = start;
+        for (dur, gap) in flaps {
+            c.faults.push(Fault { link: 1, start_ds: t, dur_ds: dur, kind });
+            t += dur + gap;
+        }
+        c
+    })
 }
 
 fn strategy_h(max_horizon_s: u16, long: bool) -> impl Strategy<Value = Case> {
@@ -101,6 +118,8 @@ fn splitmix(x: &mut u64) -> u64 {
 struct Receiver {
     group: Option<[u8; 256]>,
     members: BTreeSet<u8>,
+    /// last time a datagram from each link reached the receiver (members silent for 10 s are dropped, as srtla_rec does)
+    last_from: Vec<u64>,
     per_link_unacked: Vec<Vec<u32>>,
     highest_seq: Option<u32>,
     last_data_link: Option<u8>,
@@ -113,6 +132,7 @@ impl Receiver {
         Receiver {
             group: None,
             members: BTreeSet::new(),
+            last_from: vec![0; n],
             per_link_unacked: vec![Vec::new(); n],
             highest_seq: None,
             last_data_link: None,
@@ -121,8 +141,16 @@ impl Receiver {
         }
     }
 
-    /// Process one datagram from uplink `l`; returns replies for that link.
-    fn on_datagram(&mut self, l: u8, b: &[u8]) -> Vec<Vec<u8>> {
+    /// Drop members that have been silent for 10 s.
+    fn expire(&mut self, now: u64) {
+        let lf = &self.last_from;
+        self.members.retain(|m| now.saturating_sub(lf[*m as usize]) < 10_000);
+    }
+
+    /// Process one datagram from uplink `l` at time `now`; returns replies for that link.
+    fn on_datagram(&mut self, l: u8, b: &[u8], now: u64) -> Vec<Vec<u8>> {
+        self.expire(now);
+        self.last_from[l as usize] = now;
         let mut out = Vec::new();
         match rc::packet_type(b) {
             Some(rc::T_REG1) if b.len() == 258 => {
@@ -242,6 +270,9 @@ pub fn check(case: &Case, obs: &mut Obs, which: Which, ctx: &Ctx) -> CheckResult
     let mut forget_events: Vec<(u64, bool)> = case.forgets.iter().map(|(t, e)| (t0 + *t as u64 * 100, *e)).collect();
     forget_events.sort();
     let mut ids_equal_since: Option<u64> = None;
+    let mut not_member_since: Vec<Option<u64>> = vec![None; n];
+    // datagrams accepted before the session was established go through pre-registration forwarding (outside C04)
+    let mut first_established_counter: Option<u32> = None;
 
     // after every sender-side step: feed the wire to the receiver, schedule replies, run the monitors
     macro_rules! after_step {
@@ -253,14 +284,19 @@ pub fn check(case: &Case, obs: &mut Obs, which: Which, ctx: &Ctx) -> CheckResult
                 if l >= n {
                     continue;
                 }
-                // C04(b): what may a registering / timed-out / gated link emit?
-                if which == Which::C04 && !rc::packet_type(&e.bytes).is_some_and(|t| t == rc::T_KEEPALIVE || t == rc::T_REG1 || t == rc::T_REG2) {
-                    // stream data on the wire of link l: it was queued while eligible (checked at queue time below)
+                // C04(b): a link that was not registered before this step carries no stream data
+                if which == Which::C04
+                    && !rc::packet_type(&e.bytes).is_some_and(|t| t == rc::T_KEEPALIVE || t == rc::T_REG1 || t == rc::T_REG2)
+                    && !$conn_before[l]
+                    && e.bytes.len() >= 20
+                    && first_established_counter.is_some_and(|f| u32::from_be_bytes([e.bytes[16], e.bytes[17], e.bytes[18], e.bytes[19]]) >= f)
+                {
+                    return crate::rt::viol("stream-data-on-unregistered-link", format!("{}: link {l} was not connected before this step but put a {}-byte stream datagram on the wire at +{} ms", $what, e.bytes.len(), now - t0));
                 }
                 if fault_at(l, now, &[0, 1]) || broken[l] {
                     continue; // uplink direction lost
                 }
-                for r in rx.on_datagram(e.addr, &e.bytes) {
+                for r in rx.on_datagram(e.addr, &e.bytes, now) {
                     reply_no += 1;
                     replies.push(Reverse((now + case.rtt_ms[l] as u64, reply_no, e.addr, r)));
                 }
@@ -437,9 +473,35 @@ pub fn check(case: &Case, obs: &mut Obs, which: Which, ctx: &Ctx) -> CheckResult
             } else {
                 ids_equal_since = None;
             }
+            rx.expire(now);
             if which == Which::C08
                 && let Some(eq_since) = ids_equal_since
             {
+                // the link must also be known to the receiver again: a link that believes it is connected while the
+                // receiver dropped it is a failed uplink that was never detected. Bound: its timeout (detection) + 30 s.
+                for i in 0..n {
+                    let c = &sh.st.conns[i];
+                    if rx.members.contains(&(i as u8)) {
+                        not_member_since[i] = None;
+                        continue;
+                    }
+                    let since = *not_member_since[i].get_or_insert(now);
+                    let since = since.max(clear_after(i)).max(eq_since);
+                    let undisturbed = forget_events.is_empty() && break_events.iter().all(|(_, l)| *l != i) && !broken[i] && now >= since;
+                    let bound = c.verif_conn_timeout_ms() + 30_000 + 2 * max_hk_gap;
+                    if undisturbed && now - since > bound {
+                        return crate::rt::viol(
+                            "failure-never-detected",
+                            format!(
+                                "link {i}: the receiver has not known it for {} ms after the path was repaired (bound {} ms = timeout + 30 s); sender view: connected={} last_received age {:?}",
+                                now - since,
+                                bound,
+                                c.connected,
+                                c.last_received.map(|l| now - l)
+                            ),
+                        );
+                    }
+                }
                 for i in 0..n {
                     let c = &sh.st.conns[i];
                     if !c.connected {
@@ -479,6 +541,9 @@ pub fn check(case: &Case, obs: &mut Obs, which: Which, ctx: &Ctx) -> CheckResult
                     .collect();
                 let socks2: Vec<usize> = (0..n).map(|i| sh.st.conn_io.get(&sh.st.conns[i].conn_id).map(|io| std::sync::Arc::as_ptr(&io.socket) as usize).unwrap_or(0)).collect();
                 let conn2: Vec<bool> = sh.st.conns.iter().map(|c| c.connected).collect();
+                if sh.st.reg.has_connected && first_established_counter.is_none() {
+                    first_established_counter = Some(counter);
+                }
                 if !sh.st.reg.has_connected {
                     // session not established yet: pre-registration forwarding, outside C08/C04
                     sh.client_pkt(&pkt);
@@ -508,7 +573,7 @@ pub fn check(case: &Case, obs: &mut Obs, which: Which, ctx: &Ctx) -> CheckResult
                     if l >= n || fault_at(l, tnow, &[0, 1]) || broken[l] {
                         continue;
                     }
-                    for r in rx.on_datagram(e.addr, &e.bytes) {
+                    for r in rx.on_datagram(e.addr, &e.bytes, tnow) {
                         reply_no += 1;
                         replies.push(Reverse((tnow + case.rtt_ms[l] as u64, reply_no, e.addr, r)));
                     }
